@@ -104,7 +104,9 @@ Record script := mkScript { sc_frames : list bytes; sc_log : list ureq }.
 Definition urep_of_frame (raw : bytes) : option urep :=
   let r := Reply.parse_unit raw in
   match Reply.r_service_status r, Reply.r_data r with
-  | Some st, Some d => Some (mkRep (Reply.is_valid Reply.KUnit r) st d)
+  | Some st, Some d =>
+      Some (mkRep (Reply.is_valid Reply.KUnit r) st d
+                  (match Reply.error Reply.KUnit r with Reply.RErr _ _ => true | Reply.ROk _ => false end))
   | _, _ => None
   end.
 
